@@ -106,8 +106,12 @@ def rand_syntax(rng):
 
 def rand_header(rng, ptype, flags=None, auth_len=0):
     from dpapi_ng._rpc import PDUHeader, PacketType, PacketFlags, DataRep
+    from dpapi_ng._rpc._pdu import IntegerRep, CharacterRep, FloatingPointRep
+    # the data-representation label is carried as a label: every combination is a well-formed header (the library reads and
+    # writes the header's integers little-endian whatever the label says)
+    drep = DataRep() if rng.random() < 0.7 else DataRep(byte_order=rng.choice(list(IntegerRep)), character=rng.choice(list(CharacterRep)), floating_point=rng.choice(list(FloatingPointRep)))
     return PDUHeader(version=5, version_minor=rng.choice([0, 1]), packet_type=PacketType(ptype), packet_flags=PacketFlags(flags if flags is not None else rng.choice([3, 7, 0x83 if ptype == 0 else 3])),
-                     data_rep=DataRep(), frag_len=0, auth_len=auth_len, call_id=rng.choice([1, 2, 2**32 - 1]))
+                     data_rep=drep, frag_len=0, auth_len=auth_len, call_id=rng.choice([1, 2, 2**32 - 1]))
 
 
 def rand_trailer(rng, n=None):
